@@ -264,7 +264,7 @@ impl Graph {
                 if selfloop { "L" } else { "" },
                 if lut { "U" } else { "" },
                 if hole { "H" } else { "" },
-                if st.early.is_some() { "E" } else if st.accept.is_some() { "A" } else { "" },
+                if st.early.is_some() && st.accept.is_some() { "B" } else if st.early.is_some() { "E" } else if st.accept.is_some() { "A" } else { "" },
                 if st.eoi.is_some() { "$" } else { "" },
                 if i == self.root { "R" } else { "" },
             ));
